@@ -29,8 +29,8 @@ func extPushDelta(s *pxds.DiscoveryServer, con *pxds.Connection, req *model.Push
 }
 
 // extConnect runs the REAL DiscoveryServer.initConnection for the xDS Node of a proxy with these attributes.
-func extConnect(s *pxds.DiscoveryServer, node *corev3.Node, delta bool) (*pxds.Connection, *model.Proxy, error) {
-	return pxds.VerifC06InitConnection(s, node, delta, &sinkStream{}, &sinkDeltaStream{})
+func extConnect(s *pxds.DiscoveryServer, node *corev3.Node, delta bool, dsink *sinkDeltaStream) (*pxds.Connection, *model.Proxy, error) {
+	return pxds.VerifC06InitConnection(s, node, delta, &sinkStream{}, dsink)
 }
 
 func extDumpTypes(s *pxds.DiscoveryServer, con *pxds.Connection, types []string) {
